@@ -197,7 +197,7 @@ def gen_step(rng, U):
             p['bnd'] = [rng.randrange(6) for _ in range(rng.choice([0, 1, 2]))]
         return {'r': k, 'p': p}
     if k == 'logical':
-        d = U.dom(shape='map', dims=(2, 3))
+        d = U.dom(shape='map', dims=(2,))       # a symbolic 3-D mapping costs minutes per call without cache
         vec = rng.random() < 0.5
         sp = U.space(vec, d)
         op = rng.choice(['div', 'dot']) if vec else rng.choice(['dx', 'grad', 'dxdy'])
@@ -309,7 +309,7 @@ def correspondence(ctx):
     rng = ctx.rng
     sv = Server(ctx.repo, 0, True)
     try:
-        ncase = 60 if ctx.thorough else 14
+        ncase = 120 if ctx.thorough else 30
         lines, metas = [], []
         for i in range(ncase):
             # objects: TerminalExpr(grad u | laplace u, Omega) with colliding names
@@ -536,7 +536,7 @@ def oracle(ctx, factor, seeds):
         for key, hist, final, mode in FIXED:
             o.evaluations += 1
             check_case(o, farm, hist, final, mode, rng, clears=False)
-        ncase = (140 if ctx.thorough else 36) * factor
+        ncase = (320 if ctx.thorough else 50) * factor
         for i in range(ncase):
             mode = rng.choice(['hygienic', 'same', 'same', 'reuse', 'reuse'])
             U = Universe(rng, consistent=(mode == 'same'))
@@ -548,7 +548,7 @@ def oracle(ctx, factor, seeds):
             check_case(o, farm, hist, final, mode, rng)
             if len(o.samples) < 4:
                 o.samples.append({'mode': mode, 'history': [step_str(s) for s in hist], 'final': step_str(final)})
-        nord = (60 if ctx.thorough else 16) * factor
+        nord = (120 if ctx.thorough else 24) * factor
         U = Universe(rng, consistent=False)
         k = 0
         while k < nord:
